@@ -343,47 +343,70 @@ def make_cases(ctx, cs, lap):
     quick = ctx.quick()
     rnd = ctx.rnd
     mts = load_mts()
-    W = min(16, vlib.JOBS)
-    # (MC) design model against the abstract relation, exhaustive in the bound
-    r = vlib.tlc_mc(ctx, 'DataUriGen', 'DataUriGen_quick.cfg' if quick else 'DataUriGen_thorough.cfg',
-                    workers=W, heap='3g', timeout=3000)
-    ctx.coverage['design_states_datauri'] = r['distinct']
-    lap('DataUriGen design MC done (%d states)' % r['distinct'])
-    # (GEN) the same generator without the minifier dimension: its states are the inputs
-    dump = ctx.path('gen', 'datauri')
-    r = vlib.tlc_mc(ctx, 'DataUriGen', 'DataUriGen_gen_quick.cfg' if quick else 'DataUriGen_gen_thorough.cfg',
-                    workers=min(4, W), dump=dump, timeout=1800)
-    states = parse_gen_dump(dump + '.dump')
-    os.remove(dump + '.dump')
-    if len(states) != r['distinct']:
-        raise vlib.Infra('dump of DataUriGen has %d states, TLC reported %d' % (len(states), r['distinct']))
-    ctx.coverage['uris_enumerated'] = len(states)
-    mdump = ctx.path('gen', 'mediatype')
-    r = vlib.tlc_mc(ctx, 'MediatypeGen', 'MediatypeGen_quick.cfg' if quick else 'MediatypeGen_thorough.cfg',
-                    workers=W, heap='3g', dump=mdump, timeout=3000)
-    mstrings = parse_s_dump(mdump + '.dump')
-    os.remove(mdump + '.dump')
-    if len(mstrings) != r['distinct']:
-        raise vlib.Infra('dump of MediatypeGen has %d states, TLC reported %d' % (len(mstrings), r['distinct']))
-    ctx.coverage['mediatypes_enumerated'] = len(mstrings)
-    ctx.coverage['design_states_mediatype'] = r['distinct']
-    # the python copy of the known-construct predicate (used beyond the dump) must agree with the TLA+ one
-    for sx, k in mstrings:
-        if (excluded_mediatype(sx) is not None) != k:
-            raise vlib.Infra('python and TLA+ disagree on the known construct for %r' % sx)
-    lap('generators dumped (%d URIs, %d media type strings)' % (len(states), len(mstrings)))
+    # The TLC stages are independent of each other: run them side by side (one thread per module, so that no two
+    # runs of the same module overlap), then generate.
+    from concurrent.futures import ThreadPoolExecutor
+    W = max(2, min(16, vlib.JOBS) // 2)
+    vlib._speccopy(ctx)
 
-    # header syntax space: token sequences between "data:" and the comma (DataUriHdrGen: D => A, then the real code)
-    hdump = ctx.path('gen', 'hdr')
-    r = vlib.tlc_mc(ctx, 'DataUriHdrGen', 'DataUriHdrGen_quick.cfg' if quick else 'DataUriHdrGen_thorough.cfg',
-                    workers=W, heap='3g', dump=hdump, timeout=3000)
-    txt = open(hdump + '.dump').read()
-    os.remove(hdump + '.dump')
-    hs = re.findall(r'^/\\ hdr = (<<[^>]*>>)', txt, re.M)
-    ps = re.findall(r'^/\\ pl = (\d+)', txt, re.M)
-    del txt
-    if not (len(hs) == len(ps) == r['distinct']):
-        raise vlib.Infra('dump of DataUriHdrGen has %d/%d states, TLC reported %d' % (len(hs), len(ps), r['distinct']))
+    def stage_datauri():
+        # (MC) design models against the abstract relation, exhaustive in the bound
+        r1 = vlib.tlc_mc(ctx, 'DataUriGen', 'DataUriGen_quick.cfg' if quick else 'DataUriGen_thorough.cfg',
+                         workers=W, heap='3g', timeout=3000)
+        # (GEN) the same generator without the minifier dimension: its states are the inputs
+        dump = ctx.path('gen', 'datauri')
+        r2 = vlib.tlc_mc(ctx, 'DataUriGen', 'DataUriGen_gen_quick.cfg' if quick else 'DataUriGen_gen_thorough.cfg',
+                         workers=W, dump=dump, timeout=1800)
+        states = parse_gen_dump(dump + '.dump')
+        os.remove(dump + '.dump')
+        if len(states) != r2['distinct']:
+            raise vlib.Infra('dump of DataUriGen has %d states, TLC reported %d' % (len(states), r2['distinct']))
+        # random walks of the generator over all byte values, far beyond the exhaustive bound
+        sims = sim_states(ctx, 'DataUriGen', 'DataUriGen_sim.cfg', 25 if quick else 500, 49, parse_gen_dump, 'uri')
+        return r1['distinct'] + (r2['distinct'] if quick else 0), states, sims
+
+    def stage_mediatype():
+        mdump = ctx.path('gen', 'mediatype')
+        r = vlib.tlc_mc(ctx, 'MediatypeGen', 'MediatypeGen_quick.cfg' if quick else 'MediatypeGen_thorough.cfg',
+                        workers=W, heap='3g', dump=mdump, timeout=3000)
+        mstrings = parse_s_dump(mdump + '.dump')
+        os.remove(mdump + '.dump')
+        if len(mstrings) != r['distinct']:
+            raise vlib.Infra('dump of MediatypeGen has %d states, TLC reported %d' % (len(mstrings), r['distinct']))
+        # the python copy of the known-construct predicate (used beyond the dump) must agree with the TLA+ one
+        for sx, k in mstrings:
+            if (excluded_mediatype(sx) is not None) != k:
+                raise vlib.Infra('python and TLA+ disagree on the known construct for %r' % sx)
+        msims = sim_states(ctx, 'MediatypeGen', 'MediatypeGen_sim.cfg', 25 if quick else 500, 49, parse_s_dump, 'mt')
+        return mstrings, msims
+
+    def stage_header():
+        # header syntax space: token sequences between "data:" and the comma (DataUriHdrGen: D => A, then the real code)
+        hdump = ctx.path('gen', 'hdr')
+        r = vlib.tlc_mc(ctx, 'DataUriHdrGen', 'DataUriHdrGen_quick.cfg' if quick else 'DataUriHdrGen_thorough.cfg',
+                        workers=W, heap='3g', dump=hdump, timeout=3000)
+        txt = open(hdump + '.dump').read()
+        os.remove(hdump + '.dump')
+        hs = re.findall(r'^/\\ hdr = (<<[^>]*>>)', txt, re.M)
+        ps = re.findall(r'^/\\ pl = (\d+)', txt, re.M)
+        if not (len(hs) == len(ps) == r['distinct']):
+            raise vlib.Infra('dump of DataUriHdrGen has %d/%d states, TLC reported %d' % (len(hs), len(ps), r['distinct']))
+        return hs, ps
+
+    with ThreadPoolExecutor(max_workers=4) as ex:
+        f_self = ex.submit(selftest, ctx, ctx.c18_pinned_lines)
+        f_uri, f_mt, f_hdr = ex.submit(stage_datauri), ex.submit(stage_mediatype), ex.submit(stage_header)
+        ctx.coverage['relation_selftest_lines'] = f_self.result()
+        ndesign, states, sims = f_uri.result()
+        mstrings, msims = f_mt.result()
+        hs, ps = f_hdr.result()
+    ctx.coverage['design_states_datauri'] = ndesign
+    ctx.coverage['uris_enumerated'] = len(states)
+    ctx.coverage['mediatypes_enumerated'] = len(mstrings)
+    ctx.coverage['design_states_mediatype'] = len(mstrings)
+    lap('TLC stages done: self-test, %d design states, %d URIs, %d media type strings, %d headers'
+        % (ndesign, len(states), len(mstrings), len(hs)))
+
     ctx.coverage['header_uris_enumerated'] = len(hs)
     tok, pls = load_hdr_tokens()
     cs.family()
@@ -399,7 +422,10 @@ def make_cases(ctx, cs, lap):
 
     # ---- data URIs: exhaustive set, raw and validly encoded spelling, no minifier registered
     cs.family()
+    top_pay = max(len(st[2]) for st in states)
     for (mt, enc, pay) in states:
+        if quick and len(pay) == top_pay and rnd.random() > 0.15:
+            continue                      # quick: every state below the top length, a seeded 15% of the top length
         u = render(mts, mt, enc, pay, 'raw')
         cs.add('DataURI', 'direct', u)
         if pay:
@@ -409,7 +435,7 @@ def make_cases(ctx, cs, lap):
     # with minifiers registered for the payload type (stubs: identity / shrinking / growing; literal, text/plain
     # and pattern registrations); a seeded part of the states (real minifiers run on documents, below)
     stub_types = ('text/x', 'text/plain')
-    frac = 0.2 if quick else 0.4
+    frac = 0.06 if quick else 0.4
     cs.family()
     for (mt, enc, pay) in states:
         if rnd.random() > frac:
@@ -431,16 +457,14 @@ def make_cases(ctx, cs, lap):
                     embed(cs, u, regs, rnd)
     # every payload byte value 0..255: alone, after a letter, six times (base64 becomes the shorter form)
     for b in range(256):
-        for pay in (bytes([b]), bytes([97, b]), bytes([b] * 6), bytes([b, 97, b])):
-            for mt in (1, 3, 14):
+        for pay in ((bytes([b]), bytes([b] * 6), bytes([b, 97, b])) if quick else (bytes([b]), bytes([97, b]), bytes([b] * 6), bytes([b, 97, b]))):
+            for mt in ((1, 14) if quick else (1, 3, 14)):
                 for enc, mode in ((0, 'enc'), (1, 'enc'), (0, 'all'), (0, 'raw')):
                     u = render(mts, mt, enc, pay, mode)
                     cs.add('DataURI', 'direct', u)
                     if mt == 14:
                         cs.add('DataURI', 'direct', u, STUBS_FOR['text/x'][0])
                         embed(cs, u, [], rnd)
-    # random walks of the generator over all byte values, far beyond the exhaustive bound
-    sims = sim_states(ctx, 'DataUriGen', 'DataUriGen_sim.cfg', 40 if quick else 500, 49, parse_gen_dump, 'uri')
     ctx.coverage['uris_simulated'] = len(sims)
     for (mt, enc, pay) in sims:
         if not pay or (quick and len(pay) % 3 != ctx.seed % 3 and len(pay) > 6):
@@ -454,7 +478,7 @@ def make_cases(ctx, cs, lap):
     lap('uri simulation done')
     # embedded channels: a seeded sample of the enumerated set
     pool = [s for s in states if s[2]]
-    for (mt, enc, pay) in vlib.sample(pool, 1500 if quick else 25000, rnd):
+    for (mt, enc, pay) in vlib.sample(pool, 700 if quick else 25000, rnd):
         for mode in ('raw', 'enc'):
             u = render(mts, mt, enc, pay, mode)
             regs = rnd.choice([[]] + (STUBS_FOR[low_type(u)] if low_type(u) in stub_types else []))
@@ -492,9 +516,8 @@ def make_cases(ctx, cs, lap):
     cs.family()
     top = max(len(sx) for sx, _ in mstrings)
     for sx, _ in mstrings:
-        if quick or len(sx) < top or rnd.random() < 0.3:
+        if len(sx) < top or rnd.random() < (0.2 if quick else 0.3):
             cs.add('Mediatype', 'direct', sx)
-    msims = sim_states(ctx, 'MediatypeGen', 'MediatypeGen_sim.cfg', 40 if quick else 500, 49, parse_s_dump, 'mt')
     ctx.coverage['mediatypes_simulated'] = len(msims)
     cs.family()
     for sx, _ in msims:
@@ -502,7 +525,7 @@ def make_cases(ctx, cs, lap):
     lap('mediatype simulation done')
     # seeded strings of length 6..14 over the same alphabet (+ tab, B), and long ones
     alpha = [65, 97, 32, 34, 59, 61, 47, 92, 9, 66]
-    for _ in range(6000 if quick else 150000):
+    for _ in range(2000 if quick else 150000):
         n = rnd.randint(6, 14)
         cs.add('Mediatype', 'direct', bytes(rnd.choice(alpha[:8] if rnd.random() < 0.8 else alpha) for _ in range(n)))
     for n in (1023, 1024, 1100, 2100):
@@ -512,7 +535,7 @@ def make_cases(ctx, cs, lap):
                       b'multipart/form-data; boundary="--Abc D"', b'"', b'A"', b'"A', b'A "B', b' A" B']:
         cs.add('Mediatype', 'direct', sx)
     # through the HTML minifier (type attribute): strings the attribute layer hands over verbatim
-    for sx in vlib.sample([x for x, _ in mstrings if len(x) >= 3], 1200 if quick else 15000, rnd) + rmts:
+    for sx in vlib.sample([x for x, _ in mstrings if len(x) >= 3], 500 if quick else 15000, rnd) + rmts:
         if sx == sx.strip(WS) and b'  ' not in sx and all(32 <= c < 127 and c != 38 for c in sx) and sx:
             cs.add('Mediatype', 'html', sx, [], '"' if 39 in sx else "'")
     cs.flush()
@@ -536,14 +559,19 @@ def run_cases(ctx, exe, cases, tag):
 KEEP = ('fn', 'in', 'out', 'regs', 'calls', 'hasref', 'refpay', 'panic')
 
 
-def project(line):
+DRIFT_EVERY = [1]      # compare every n-th line with the as-is transcriptions (quick tier: 4)
+
+
+def project(line, n=0):
     e = json.loads(line) if isinstance(line, str) else line
-    return json.dumps({k: e[k] for k in KEEP}, separators=(',', ':'))
+    d = {k: e[k] for k in KEEP}
+    d['drift'] = n % DRIFT_EVERY[0] == 0
+    return json.dumps(d, separators=(',', ':'))
 
 
 def tv(ctx, lines):
     """TLC on the projected lines: (indices rejected by the relation -> clause names, indices with model drift)"""
-    _, rejects = vlib.tlc_trace(ctx, 'C18Trace', 'C18Trace.cfg', [project(l) for l in lines], timeout=3000)
+    _, rejects = vlib.tlc_trace(ctx, 'C18Trace', 'C18Trace.cfg', [project(l, n) for n, l in enumerate(lines)], timeout=3000)
     why, drift = {}, set()
     for i, w in rejects:
         if w == 'DRIFT':
@@ -573,7 +601,7 @@ def validate_alone(ctx, exe, cases, tag):
     return lines, why
 
 
-def selftest(ctx):
+def selftest(ctx, extra=()):
     """binding self-test of the relation itself: hand-made lines with one corrupted field each must be rejected by
     the clause they break, clean controls must be accepted (otherwise the machinery is broken: exit 2)"""
     def line(fn, i, o, regs=(), calls=(), hasref=False, refpay=b'', panic=False):
@@ -618,7 +646,8 @@ def selftest(ctx):
         (line('Mediatype', 'A "B\\" C" D', 'a"B\\" C"d'), None),
         (line('Mediatype', 'A "B C', 'a"b C'), None),
     ]
-    why, _ = tv(ctx, [json.dumps(t[0], separators=(',', ':')) for t in T])
+    why, _ = tv(ctx, [json.dumps(t[0], separators=(',', ':')) for t in T] + list(extra))
+    ctx.c18_extra_why = dict((i - len(T), w) for i, w in why.items() if i >= len(T))   # verdicts on the extra (pinned) lines
     for i, (l, want) in enumerate(T):
         got = why.get(i, [])
         if (want is None and got) or (want is not None and want not in got):
@@ -692,8 +721,7 @@ def run(ctx):
     def lap(what):
         vlib.log('[c18] %6.1fs %s' % (time.time() - t0, what))
     exe = vlib.build_harness(ctx, 'c18')
-    ctx.coverage['relation_selftest_lines'] = selftest(ctx)
-    lap('relation self-test passed')
+    DRIFT_EVERY[0] = 4 if ctx.quick() else 1
     st = Stats()
     nbatch = [0]
 
@@ -702,12 +730,17 @@ def run(ctx):
         process(ctx, exe, st, cases, 'b%d' % nbatch[0])
         lap('batch %d validated (%d lines so far, %d rejected)' % (nbatch[0], st.lines, st.rejected))
     cs = Cases(sink)
-    make_cases(ctx, cs, lap)
-    # pinned witnesses of known findings: replayed on every run
+    # pinned witnesses of known findings: replayed on every run, each in a harness process of its own; their lines are
+    # validated by the TLC run of the relation self-test
     pinned = [case_from_ident(k) for k in vlib.known_cases('C18')]
+    l2 = []
+    for n, c in enumerate(pinned):
+        l2 += run_cases(ctx, exe, [dict(c, id=0)], 'pinned-alone%d' % n)
+    ctx.c18_pinned_lines = l2
+    make_cases(ctx, cs, lap)
     still = 0
     if pinned:
-        l2, why2 = validate_alone(ctx, exe, pinned, 'pinned')
+        why2 = ctx.c18_extra_why
         for k, c in enumerate(pinned):
             if k in why2:
                 still += 1
@@ -720,8 +753,8 @@ def run(ctx):
         evaluations=st.lines,
         distinct_nontrivial=len(st.nontrivial),
         rule='DataURI: every state of the TLC generator DataUriGen (14 media type spellings x {;base64, none} x payloads '
-             'of <= %d bytes over {a,space,%%,#,",<,NUL,0xFF,+,/,=}), each as the raw text after the comma and as a validly '
-             'encoded payload, without a minifier, and a seeded %d%% of them with registered minifiers (identity/shrinking/'
+             'of <= %d bytes over {a,space,%%,#,",<,NUL,0xFF,+,/,=}; at the top length a seeded 15%% in the quick tier), each as the raw text after the comma and as a validly '
+             'encoded payload, without a minifier, and a seeded %d%% of all states with registered minifiers (identity/shrinking/'
              'growing stub; literal, text/plain and pattern registrations); real css/json/svg minifiers on a list of documents '
              'in 4 spellings x all media type spellings; every byte value 0..255 in 4 payload shapes x 4 spellings; TLC -simulate '
              'walks over all byte values up to 48 bytes; malformed forms; the repository test inputs; a seeded sample again '
@@ -731,13 +764,13 @@ def run(ctx):
              'a sample through the HTML type attribute. A case is (fn, channel, input bytes, registrations); non-trivial = the '
              'helper returned bytes different from its input or a registered minifier ran. Excluded from generation (narrow '
              'constructs of pinned known findings, decided on the input only): %s'
-             % (3 if q else 4, 20 if q else 40, 3 if q else 5, '5' if q else '6 (and a seeded 30% of length 7)',
+             % (3 if q else 4, 6 if q else 40, 3 if q else 5, '4 (and a seeded 20% of length 5)' if q else '6 (and a seeded 30% of length 7)',
                 '; '.join('%s (%d inputs)' % kv for kv in sorted(cs.excluded.items())) or 'none'),
         samples=st.samples or [dict(note='no sampled line changed')],
         exhaustive=True,
         exhaustive_bound='all generator states: payload <= %d bytes over 11 symbols x 14 media types x 2 encodings; all headers of <= %d '
                          'tokens over 10 tokens x 4 payloads; all media type strings <= %d bytes over 8 symbols'
-                         % (3 if q else 4, 3 if q else 5, 5 if q else 6),
+                         % (2 if q else 4, 3 if q else 5, 4 if q else 6),
         cases_per_channel=st.per,
         branch_hits=st.branch,
         payload_byte_values_covered=len(st.bytevals),
@@ -745,7 +778,7 @@ def run(ctx):
         rejections_reproduced=st.confirmed,
         pinned_witnesses=len(pinned),
         pinned_still_failing=still,
-        design_drift=dict(st.drift, note='lines on which the transcription of the pinned code (DataUriAsIs.AsIsNone for calls without a minifier / '
+        design_drift=dict(st.drift, compared='every line' if not q else 'every 4th line', note='lines on which the transcription of the pinned code (DataUriAsIs.AsIsNone for calls without a minifier / '
                                          'MtMachine.AsIs) predicts other bytes than the code returned; information, never a verdict',
                           samples=st.drift_samples),
     ))
